@@ -49,7 +49,7 @@ PROP = {
                 H("c17_ingest_cover_last_w1", "P", what="coverage coupling + intactness, last frame after middle frames / duplicate last", timeout=3600),
                 H("c17_init_resets", "P", what="init resets per-packet state"),
                 H("c17_send_contract_b4", "B", bound="packets of <= 4 frames (n <= 4*(mtu-16)), all MTUs", what="Fragmenter::send emits exactly the honest frames"),
-                H("c17_send_contract_full", "P", tier="experimental", what="Fragmenter::send emits exactly the honest frames (loop <= 256 by operand width, unwinding assertions on)", timeout=14400),
+                H("c17_send_contract_full", "P", tier="experimental", what="Fragmenter::send emits exactly the honest frames (loop <= 256 by operand width, unwinding assertions on) - stopped after 110 min / 8.6 GB without a verdict", timeout=14400),
                 H("c17_honest_step_mid_f0", "P", what="honest completeness step: middle frame before the last frame", timeout=3600),
                 H("c17_honest_step_mid_f1w0", "P", what="honest completeness step: first middle frame after the last frame", timeout=3600),
                 H("c17_honest_step_mid_f1w1", "P", what="honest completeness step: further middle frame after the last frame", timeout=3600),
